@@ -509,6 +509,71 @@ def mkEnv (blendKeys : List Key) (macHigh : List Nat) (utf16 fallback : Bool) : 
   { blendKeys := blendKeys, macEnc := macEncOf macHigh, macDec := macDecOf macHigh,
     uniEnc := uniEncOf utf16, uniDec := uniDecOf utf16, legacyFallback := fallback }
 
+/-! ### Several layers: who owns the `LayerFlags` object
+
+Python objects have identity: a `LayerRecord` does not contain its `LayerFlags`, it refers to an
+object, and `layer.visible = v` mutates that object. `LayerRecord.flags` is declared with
+`attr.ib(factory=LayerFlags)`: every record built without explicit flags (`Group.new`, its
+bounding record, `PixelLayer.frompil`) and every record read from a file gets an object of its
+own. The layers of all documents of the process are `recs[i] = (record fields, address of the
+flags object)` — the `flags` component of the fields is not used; the layer as the API sees it is
+`view`. (The other mutable elements of a record — blocks, blending ranges — are owned in the same
+way; the harness checks the identities of all of them. The flags are the element the constructors
+create by default and a setter mutates in place, so they are the one modelled with addresses.) -/
+
+structure Doc where
+  recs : List (Layer × Nat)
+  heap : List Flags
+  deriving DecidableEq, Repr
+
+/-- layer `i` as the getters see it -/
+def Doc.view (d : Doc) (i : Nat) : Option Layer :=
+  match d.recs[i]? with
+  | some (l, r) => (d.heap[r]?).map fun f => { l with flags := f }
+  | none => none
+
+/-- a record constructor with `factory=LayerFlags`: a fresh object for this record -/
+def Doc.newLayer (l : Layer) (d : Doc) : Doc :=
+  { recs := d.recs ++ [(l, d.heap.length)], heap := d.heap ++ [l.flags] }
+
+/-- what `attr.ib(default=LayerFlags())` would be: the object at `shared`, created once with the
+class, for every record built without explicit flags (witness definition; not the code) -/
+def Doc.newLayerSharedDefault (shared : Nat) (l : Layer) (d : Doc) : Doc :=
+  { d with recs := d.recs ++ [(l, shared)] }
+
+/-- an attribute edit of layer `i` through the API: the setter runs on the layer as seen; the
+record fields go back to record `i`, the flags to the object that record refers to -/
+def Doc.edit (E : Env) (a : Attr) (v : Val) (i : Nat) (d : Doc) : Except Err Doc :=
+  match d.recs[i]?, d.view i with
+  | some (_, r), some l =>
+    (match set E a v l with
+     | .ok l' => .ok { recs := d.recs.set i (l', r), heap := d.heap.set r l'.flags }
+     | .error e => .error e)
+  | _, _ => .error .indexError
+
+/-- every record owns its flags object: the addresses are valid and pairwise different -/
+def Doc.Owned (d : Doc) : Prop :=
+  (∀ (i j : Nat) (li lj : Layer) (ri rj : Nat),
+      d.recs[i]? = some (li, ri) → d.recs[j]? = some (lj, rj) → i ≠ j → ri ≠ rj) ∧
+  (∀ (i : Nat) (li : Layer) (ri : Nat), d.recs[i]? = some (li, ri) → ri < d.heap.length)
+
+/-- a step of a history over several layers: an attribute edit of one of them, or a new layer -/
+inductive DocOp where
+  | edit (i : Nat) (a : Attr) (v : Val)
+  | new (l : Layer)
+
+def Doc.step (E : Env) (d : Doc) : DocOp → Except Err Doc
+  | .edit i a v => d.edit E a v i
+  | .new l => .ok (d.newLayer l)
+
+/-- a refused edit leaves everything as it is and the history goes on (the Python exception is caught) -/
+def Doc.run (E : Env) : Doc → List DocOp → Doc
+  | d, [] => d
+  | d, o :: os =>
+    match d.step E o with
+    | .ok d' => Doc.run E d' os
+    | .error _ => Doc.run E d os
+
 /-! ### What went wrong before the repairs (witness definitions) -/
 
 /-- `Group.new` before 076e090: divider without signature and blend mode. -/
